@@ -16,6 +16,7 @@ cache dir and only when asked (CLI steps: exactly their target).
 import copy
 import hashlib
 import os
+import pathlib
 import shutil
 import sys
 
@@ -59,6 +60,7 @@ class Lab:
         self.shared_copy = copy.deepcopy(self.shared)
         self.proc0 = process_digest()
         self.steps = 0
+        self.proc_changes = []
 
     def digest_product(self):
         listing = {k: v for k, v in self.prod.listing().items() if not k.endswith(".index")}
@@ -151,10 +153,21 @@ class Lab:
         if wrote_expected is not None:
             writes = {e[1] for e in events if e[0] == "open" and any(c in e[2] for c in "wax+")}
             others = [e for e in events if e[0] in ("os.rename", "os.remove", "os.truncate", "os.rmdir")]
-            if not writes <= wrote_expected or others:
-                bad.append(("unexpected-write", f"op {op} wrote {sorted(writes - wrote_expected)[:2]} {others[:2]}"))
-            if op[0] == "open" and op[2] and op[1] is False and writes != wrote_expected:
-                bad.append(("cache-not-written", f"create_cache=True, use_cache=False wrote {sorted(writes)}"))
+            # where this step may write at all: the directory of the files it was asked to produce (a temporary file
+            # that is renamed into place is fine); what must be there afterwards: exactly the expected files
+            allowed = {str(pathlib.Path(w).parent) for w in wrote_expected}
+            stray = sorted(w for w in writes if str(pathlib.Path(w).parent) not in allowed) + [e for e in others if str(pathlib.Path(e[1]).parent) not in allowed]
+            leftovers = []
+            for d in allowed:
+                dd = pathlib.Path(d)
+                if dd == self.cdir and dd.exists():
+                    leftovers += [str(q) for q in dd.iterdir() if str(q) not in wrote_expected and not (q.suffix == ".index" and q.name[: -len(".index")] in self.names)]
+            if stray or leftovers:
+                bad.append(("unexpected-write", f"op {op} wrote {stray[:2]} left {leftovers[:2]}"))
+            if op[0] == "open" and op[2] and op[1] is False:
+                missing = [w for w in wrote_expected if not pathlib.Path(w).is_file() or not any(x.startswith(str(self.cdir)) for x in writes)]
+                if missing:
+                    bad.append(("cache-not-written", f"create_cache=True, use_cache=False wrote {sorted(writes)}; missing {missing[:2]}"))
         if self.digest_product() != self.product_digest:
             bad.append(("product-modified", "the product files changed"))
             for k, v in self.files.items():
@@ -165,7 +178,9 @@ class Lab:
                 bad.append(("cache-files-changed-unasked", f"user cache dir {sorted(before_local)} -> {sorted(after_local)}"))
         pd = process_digest()
         if pd != self.proc0:
-            bad.append(("process-state-changed", f"library-level mutable state digest changed after {op}: {process_diff(self.proc0_items, process_items())[:3]}"))
+            # not a verdict (an internal memo is no violation as long as every tree is right): the digest is part of the
+            # canonical state, so the search goes on from the new process state; counted for the evidence
+            self.proc_changes.append((op, process_diff(self.proc0_items, process_items())[:3]))
             self.proc0 = pd
         return bad
 
